@@ -98,6 +98,14 @@ fn negamax(game: &mut Game, depth: u8, alpha: i32, beta: i32, envir: &mut Search
 
     let is_pv_node = (beta - alpha) > 1;
 
+    //Draw by repetition: decided on this node's own key, before the transposition table is consulted
+    if envir.ply > 0 && envir.repetition_table.is_now_in_threefold_repetition(game.zobrist_hash) {
+        envir.pv_lengths[envir.ply as usize] = envir.ply as usize;
+        #[cfg(jence_verif)]
+        crate::verif_driver::on_rep_hit();
+        return 0;
+    }
+
     let mut score;
     if envir.ply != 0 && !is_pv_node {
         score = envir.transposition_table.probe(game.zobrist_hash, depth, alpha, beta, envir.ply);
@@ -110,12 +118,6 @@ fn negamax(game: &mut Game, depth: u8, alpha: i32, beta: i32, envir: &mut Search
     }
 
     envir.pv_lengths[envir.ply as usize] = envir.ply as usize;
-
-    if envir.ply > 0 && envir.repetition_table.is_now_in_threefold_repetition() {
-        #[cfg(jence_verif)]
-        crate::verif_driver::on_rep_hit();
-        return 0;
-    }
 
     //Dont't go on if reached max ply
     if envir.ply >= MAX_PLY as u8 - 1  {
